@@ -19,21 +19,21 @@ type Failure struct {
 
 // Result is what a harness run reports to bin/check.
 type Result struct {
-	Property      string         `json:"property"`
-	Tier          string         `json:"tier"`
-	Seed          uint64         `json:"seed"`
-	Evaluations   int            `json:"evaluations"`
-	Distinct      int            `json:"distinct_nontrivial"`
-	Rule          string         `json:"rule"`
-	Samples       []interface{}  `json:"samples"`
-	Distribution  map[string]int `json:"distribution"`
-	CorrChecked   int            `json:"corr_checked"`
-	Exhaustive    map[string]int `json:"exhaustive,omitempty"`
-	Failures      []Failure      `json:"failures"`
-	Notes         []string       `json:"notes,omitempty"`
-	distinct      map[string]bool
-	failKeys      map[string]int
-	MaxPerKey     int `json:"-"`
+	Property     string         `json:"property"`
+	Tier         string         `json:"tier"`
+	Seed         uint64         `json:"seed"`
+	Evaluations  int            `json:"evaluations"`
+	Distinct     int            `json:"distinct_nontrivial"`
+	Rule         string         `json:"rule"`
+	Samples      []interface{}  `json:"samples"`
+	Distribution map[string]int `json:"distribution"`
+	CorrChecked  int            `json:"corr_checked"`
+	Exhaustive   map[string]int `json:"exhaustive,omitempty"`
+	Failures     []Failure      `json:"failures"`
+	Notes        []string       `json:"notes,omitempty"`
+	distinct     map[string]bool
+	failKeys     map[string]int
+	MaxPerKey    int `json:"-"`
 }
 
 func NewResult(prop, tier string, seed uint64) *Result {
